@@ -16,7 +16,7 @@ def optLen (o : Option Bytes) : String := match o with | some b => toString b.le
 
 def stStr (st : UpState) : String := s!"{optLen st.final} {optLen st.inc}"
 
-def c09Handlers : List (String × Handler) := [
+def c09Own : List (String × Handler) := [
   -- uphandle <final> <inc> <resume 0|1>
   ("uphandle", fun (a : List String) => match a with
     | [fin, inc, rs] => match handleUploadFile (stOfArgs fin inc) (rs == "1") with
@@ -56,5 +56,8 @@ def c09Handlers : List (String × Handler) := [
       | _ => "bad-op"
     | _ => "bad-op")
 ]
+
+/-- The C09 oracle also answers the C08 ops (its histories end with a download). -/
+def c09Handlers : List (String × Handler) := c08Handlers ++ c09Own
 
 end Oracle
